@@ -58,7 +58,7 @@ READ_SITE = {
     "index.iterentries": "dulwich/pack.py:FilePackIndex.iterentries",
     "index.object_offset": "dulwich/pack.py:FilePackIndex.object_offset",
     "add_thin_pack+getitem": "dulwich/object_store.py:DiskObjectStore.add_thin_pack",
-    "create_index_v2": "dulwich/pack.py:PackData.create_index_v2",
+    "create_index_v2": "dulwich/pack.py:PackData.create_index_v2", "create_index": "dulwich/pack.py:PackData.create_index",
 }
 LAYOUT_ORDER = ["Unparseable", "Offsets", "Count", "PackTrailer", "Header", "OfsLands", "RefResolves", "Chain", "IterCovers",
                 "EntryContent", "ObjectSet", "Fanout", "NamesSorted", "OffsetTables", "IdxLength", "IdxV3Header",
@@ -145,10 +145,12 @@ def parse_cases(output):
     for v in tlc.extract_printed(output, "CASE"):
         _tag, objs, have, row, src, es, hdrs, cnt, ixok = v
         key = (tuple(objs), tuple(sorted(have)), tuple(row))
-        c = cases.setdefault(key, {"objs": list(objs), "have": sorted(have), "row": list(row), "beh": [], "cnt": cnt, "ixok": ixok})
+        c = cases.setdefault(key, {"objs": list(objs), "have": sorted(have), "row": list(row), "beh": [], "cnts": [], "ixok": ixok})
         b = ([list(x) for x in src], [list(x) for x in es], [list(h) for h in hdrs])
         if b not in c["beh"]:
             c["beh"].append(b)
+        if cnt not in c["cnts"]:
+            c["cnts"].append(cnt)
     return cases
 
 
@@ -199,18 +201,23 @@ def random_cases(ctx, n, start_cid, maxobjs):
     for k in range(n):
         nobj = rng.randint(1, maxobjs)
         custom, objs = {}, []
+        api = rng.choice([1, 2, 3, 3, 4, 5, 6, 6])
+        deltify = rng.randint(0, 1) if api not in (4, 5) else 0
+        # both delta encoders of dulwich take minutes on unrelated large objects (byte-level Myers diff / difflib):
+        # where deltas are searched, everything above 1500 bytes comes from one stream
+        searching = bool(deltify) or api == 6
         nfam = rng.randint(1, 3)
         fams = [(rng.randint(1, 10 ** 6), rng.choice(["rand", "text"])) for _ in range(nfam)]
         for j in range(nobj):
             if rng.random() < 0.2:
                 objs.append(rng.choice([1, 2, 3, 11, 12, 13, 14, 15]))
                 continue
-            seed, kind = rng.choice(fams)
+            f = rng.randrange(nfam)
+            seed, kind = fams[f]
             size = int(2 ** rng.uniform(0, 18.2)) if rng.random() < 0.8 else rng.choice([0, 15, 16, 2047, 2048, 65535, 65536, 65537])
-            if kind == "rand":
-                recipe = [["rand", seed, size]]
-            else:
-                recipe = [["slice", [["text", seed, size // 12 + 2]], 0, size]]
+            if searching and f != 0 and size > 1500:
+                size = rng.randint(0, 1500)
+            recipe = [[kind, seed, size]]
             if rng.random() < 0.5 and size > 8:
                 cut = rng.randrange(size)
                 recipe = [["slice", recipe, 0, cut], ["hex", "%08x" % rng.getrandbits(32)], ["slice", recipe, cut, size]]
@@ -222,7 +229,7 @@ def random_cases(ctx, n, start_cid, maxobjs):
         u20 = L.universe(20)
         seen, uniq = set(), []
         for o in objs:
-            data = c03_data.blob(custom[str(o)][1]) if str(o) in custom else u20[o][1]
+            data = L.blob(custom[str(o)][1]) if str(o) in custom else u20[o][1]
             t = 3 if str(o) in custom else u20[o][0]
             key = (t, data)
             if key not in seen:
@@ -230,8 +237,6 @@ def random_cases(ctx, n, start_cid, maxobjs):
                 uniq.append(o)
         objs = uniq
         custom = {k2: v for k2, v in custom.items() if int(k2) in objs}
-        api = rng.choice([1, 2, 3, 3, 4, 5, 6, 6])
-        deltify = rng.randint(0, 1) if api not in (4, 5) else 0
         window = rng.choice([0, 1, 10]) if deltify else 10
         reuse = rng.randint(0, 1) if api == 6 else 0
         row = [api, deltify, window, reuse, 0, rng.randint(0, 1) if api == 3 else 1, rng.randint(-1, 9),
@@ -267,6 +272,17 @@ class Judge:
             self.ctx.cov.setdefault("further_failing_cases", {})
             self.ctx.cov["further_failing_cases"][group] = self.ctx.cov["further_failing_cases"].get(group, 0) + 1
             return
+        self.ctx.violation(sig, what, obj)
+
+    def capped(self, group, canon_, what, obj):
+        """ctx.violation, but at most three unlisted signatures per (site, clause): one root cause fails on many states."""
+        sig = f"{group}|{canon_}"
+        n = self.groups.get(group, 0)
+        if n >= 3 and not self._known(sig):
+            self.ctx.cov.setdefault("further_failing_cases", {})
+            self.ctx.cov["further_failing_cases"][group] = self.ctx.cov["further_failing_cases"].get(group, 0) + 1
+            return
+        self.groups[group] = n + 1
         self.ctx.violation(sig, what, obj)
 
     def _known(self, sig):
@@ -369,8 +385,8 @@ class Judge:
         if not ok:
             ctx.drift_event(f"writer decisions {real_tgt} (source {real_src}) are no behaviour of PackFmtWriter for objs={case['objs']} "
                             f"have={case.get('have')} row={case['row']}: allowed {[b[1] for b in exp['beh']][:3]}")
-        if exp["cnt"] != res.get("count"):
-            ctx.drift_event(f"count field {res.get('count')} differs from the model's {exp['cnt']} for objs={case['objs']} row={case['row']}")
+        if res.get("count") not in exp["cnts"]:
+            ctx.drift_event(f"count field {res.get('count')} differs from the model's {exp['cnts']} for objs={case['objs']} row={case['row']}")
 
     # ---- packs written by C git
     def gitpack(self, sc, mode, res, verdict, state):
@@ -475,8 +491,10 @@ def run(ctx):
     negs = [("PackFmtVarint.tla", "PackFmtVarint_neg_plain.cfg", ["Lemma"]), ("PackFmtIdx.tla", "PackFmtIdx_neg_msb.cfg", ["Lemma"]),
             ("PackFmtWriter.tla", "PackFmtWriter_neg_dup.cfg", ["IdxInv"]), ("PackFmtWriter.tla", "PackFmtWriter_neg_dupscan.cfg", ["GitInv"]),
             ("PackFmtWriter.tla", "PackFmtWriter_neg_ofs.cfg", ["PackInv"]), ("PackFmtWriter.tla", "PackFmtWriter_fix_dup.cfg", [])]
+    dupmod = [m for (n_, s_, m) in wplan if n_ == "dup"][0]
     for spec, cfg, want in negs:
-        futs["neg-" + cfg] = tlc_job(cfg[:-4], spec, cfg, 1)
+        path = cfg_with(ctx, cfg, EmitMod=dupmod, EmitRes=seed % dupmod) if cfg == "PackFmtWriter_fix_dup.cfg" else cfg
+        futs["neg-" + cfg] = tlc_job(cfg[:-4], spec, path, 1)
 
     # ---------------------------------------------------------------- real code, part 1: what needs no TLC output
     deadline = time.time() + ctx.pick(55, 16 * 60)
@@ -497,6 +515,27 @@ def run(ctx):
             for part in split_jobs(mine, k):
                 child_futs.append(("writer", mode, pool.submit(mode, "writer", cases=part, seed=seed, deadline=deadline)))
     submit_writer(rnd + rnd7, "random", deadline)
+
+    # git scenarios (PackFmtGit is a two second run: dispatched before the long TLC runs are collected)
+    name, r = futs.pop("git").result()
+    ctx.add_tlc(name, r)
+    gstates = list(tlc.load_state_dump(gdump + ".dump"))
+    ctx.rng.shuffle(gstates)
+    gpick = gstates[:ctx.pick(40, 900)]
+    # always include the deepest chains
+    deep = [g for g in gstates if g["depth"] == 50 and g["nver"] >= 60 and g["window"] == 10 and not g["thin"]][:ctx.pick(4, 24)]
+    gpick = deep + [g for g in gpick if g not in deep]
+    scen, scen_state = [], {}
+    for k, g in enumerate(gpick):
+        sc = {"cid": 700000 + k, "oid": g["oid"], "nver": g["nver"], "nfiles": g["nfiles"], "size": g["size"], "depth": g["depth"],
+              "window": g["window"], "ofs": bool(g["ofs"]), "thin": bool(g["thin"]), "edit": str(g["edit"])}
+        sc["mode"] = "rs" if k % 2 == 0 else "py"
+        scen.append(sc)
+        scen_state[sc["cid"]] = (sc, g)
+    for mode in ("rs", "py"):
+        mine = [s for s in scen if s["mode"] == mode]
+        for part in split_jobs(mine, ctx.pick(2, 4)):
+            child_futs.append(("gitpack", mode, pool.submit(mode, "gitpack", scenarios=part, seed=seed, deadline=time.time() + ctx.pick(60, 15 * 60))))
 
     # ---------------------------------------------------------------- collect TLC results
     results = {}
@@ -520,39 +559,30 @@ def run(ctx):
         vstates.append([st["t"], L.unlimb(st["x"]), list(st["hdr"]), list(st["ofs"]), list(st["leb"])])
     always = [15, 16, 2047, 2048, 65535, 65536, 65537]
     vparts = split_jobs(vstates, 4)
-    vfuts = [pool.submit("rs" if k % 2 == 0 else "py", "varint", states=p, always=always) for k, p in enumerate(vparts)]
+    vfuts = [("rs" if k % 2 == 0 else "py", pool.submit("rs" if k % 2 == 0 else "py", "varint", states=p, always=always))
+             for k, p in enumerate(vparts)]
     # idx states
     istates = list(load_idx_states(idump + ".dump"))
     for k, s in enumerate(istates):
         s["git"] = (k % ctx.pick(8, 4) == 0)
-    ifuts = [pool.submit("rs" if k % 2 == 0 else "py", "idx", states=p) for k, p in enumerate(split_jobs(istates, 4))]
-    # git scenarios
-    gstates = list(tlc.load_state_dump(gdump + ".dump"))
-    ctx.rng.shuffle(gstates)
-    gpick = gstates[:ctx.pick(40, 900)]
-    # always include the deepest chains
-    deep = [g for g in gstates if g["depth"] == 50 and g["nver"] >= 60 and g["window"] == 10 and not g["thin"]][:ctx.pick(4, 24)]
-    gpick = deep + [g for g in gpick if g not in deep]
-    scen, scen_state = [], {}
-    for k, g in enumerate(gpick):
-        sc = {"cid": 700000 + k, "oid": g["oid"], "nver": g["nver"], "nfiles": g["nfiles"], "size": g["size"], "depth": g["depth"],
-              "window": g["window"], "ofs": bool(g["ofs"]), "thin": bool(g["thin"]), "edit": str(g["edit"])}
-        sc["mode"] = "rs" if k % 2 == 0 else "py"
-        scen.append(sc)
-        scen_state[sc["cid"]] = (sc, g)
-    for mode in ("rs", "py"):
-        mine = [s for s in scen if s["mode"] == mode]
-        for part in split_jobs(mine, ctx.pick(2, 4)):
-            child_futs.append(("gitpack", mode, pool.submit(mode, "gitpack", scenarios=part, seed=seed, deadline=deadline)))
+    ifuts = [("rs" if k % 2 == 0 else "py", pool.submit("rs" if k % 2 == 0 else "py", "idx", states=p))
+             for k, p in enumerate(split_jobs(istates, 4))]
     # writer cases
     wcases = []
     cid = 1
     for nm, static, mod in wplan:
         cs = parse_cases(results["writer-" + nm].output)
+        if nm == "dup":
+            # an object handed in twice: the writer as it is (written twice) and the repaired writer (written once)
+            # are both behaviours of the specification (DedupInput); the layout clauses decide which one is acceptable
+            for key, c2 in parse_cases(results["neg-PackFmtWriter_fix_dup.cfg"].output).items():
+                if key in cs:
+                    cs[key]["beh"] += [b for b in c2["beh"] if b not in cs[key]["beh"]]
+                    cs[key]["cnts"] += [n for n in c2["cnts"] if n not in cs[key]["cnts"]]
         for key in sorted(cs):
             c = cs[key]
             wcases.append({"cid": cid, "objs": c["objs"], "have": c["have"], "row": c["row"], "origin": nm,
-                           "exp": {"beh": c["beh"], "cnt": c["cnt"], "ixok": c["ixok"]}, "cat": cid % 4 == 0})
+                           "exp": {"beh": c["beh"], "cnts": c["cnts"], "ixok": c["ixok"]}, "cat": cid % 4 == 0})
             cid += 1
     ctx.rng.shuffle(wcases)
     if not quick:
@@ -570,21 +600,20 @@ def run(ctx):
     send = [{k: v for k, v in c.items() if k != "exp"} for c in wcases]
     deadline = max(deadline, time.time() + ctx.pick(35, 13 * 60))
     submit_writer(send, "tlc", deadline)
-    for c in wcases:
-        mode_of[c["cid"]]["exp"] = c["exp"]
+    exp_of = {c["cid"]: c["exp"] for c in wcases}
 
     # ---------------------------------------------------------------- collect children
     n_v = 0
-    for f in vfuts:
+    for vmode, f in vfuts:
         r = f.result()
         n_v += r["n"]
         ctx.count(r["n"])
         ctx.validated(r["n"])
         for b in r["bad"]:
             what = f"{b['fn']} disagrees with PackFmt on type={b.get('t')} value={b['x']}: {b.get('got', b.get('exc'))} (expected {b.get('want')})"
-            ctx.violation(f"dulwich/pack.py:{b['fn']}|Varint|t={b.get('t')} x={b['x']}", what, {"varint": b})
+            judge.capped(f"dulwich/pack.py:{b['fn']}|Varint", f"t={b.get('t')} x={b['x']}", what, {"varint": b, "mode": vmode})
     n_i = 0
-    for f in ifuts:
+    for imode, f in ifuts:
         r = f.result()
         n_i += r["n"]
         ctx.count(r["n"])
@@ -592,8 +621,9 @@ def run(ctx):
         for b in r["bad"]:
             fn = f"write_pack_index_v{b['v']}" if not b["clause"].startswith("Read:") else f"PackIndex{b['v']}"
             big = sorted({("<2^31" if o < 2 ** 31 else "<2^32" if o < 2 ** 32 else ">=2^32") for o in b["offs"]})
-            sig = f"dulwich/pack.py:{fn}|{b['clause']}|oid={b['oid']} n={len(b['offs'])} offsets={'+'.join(big) or 'none'} first={b['firsts']}"
-            ctx.violation(sig, f"{fn} on a synthetic table: {b['clause']} {b.get('exc', '')}", {"idx_state": b})
+            judge.capped(f"dulwich/pack.py:{fn}|{b['clause']}",
+                         f"oid={b['oid']} n={len(b['offs'])} offsets={'+'.join(big) or 'none'} first={b['firsts']}",
+                         f"{fn} on a synthetic table: {b['clause']} {b.get('exc', '')}", {"idx_state": b, "mode": imode})
     results_w, traces, gtraces = {}, [], []
     skipped = 0
     for kind, mode, f in child_futs:
@@ -614,7 +644,7 @@ def run(ctx):
     for cidk in sorted(results_w):
         kind, mode, r = results_w[cidk]
         if kind == "writer":
-            judge.writer(mode_of[cidk], mode, r, verdicts.get(cidk))
+            judge.writer(dict(mode_of[cidk], exp=exp_of.get(cidk)), mode, r, verdicts.get(cidk))
         else:
             sc, g = scen_state[cidk]
             judge.gitpack({k: v for k, v in sc.items() if k not in ("cid", "mode")}, mode, r, verdicts.get(cidk), g)
@@ -697,16 +727,19 @@ def replay(ctx, path):
         rc = 1 if v[2] else 0
     elif "varint" in obj:
         b = obj["varint"]
-        print(f"  varint case: {b}")
-        from ..c02_lib import limb
-        st = [[b.get("t", 3), b["x"], b.get("want", [])[:0], [], []]]
-        print("  (re-run ./check C02 to re-evaluate all varint states; the case is printed above)")
-        rc = 1
+        r = pool.submit(mode, "varint", states=[b["state"]], always=[b["state"][1]]).result()
+        print(f"  varint state (type, value, ObjHeader, OfsEncode, Leb as computed by PackFmt): {b['state']}")
+        for x in r["bad"]:
+            print(f"  {x['fn']}: got {x.get('got', x.get('exc'))} expected {x.get('want', '(the value)')}")
+        rc = 1 if r["nbad"] else 0
     elif "idx_state" in obj:
         b = obj["idx_state"]
-        st = {"firsts": b["firsts"], "offs": b["offs"], "v": b["v"], "oid": b["oid"]}
-        print(f"  synthetic index table: {st} clause={b['clause']}")
-        rc = 1
+        r = pool.submit(mode, "idx", states=[dict(b["state"], git=True)]).result()
+        print(f"  synthetic index table: first bytes {b['firsts']} offsets {b['offs']} version {b['v']} hash length {b['oid']}")
+        print(f"  expected by PackFmt: refuse={b['state']['refuse']} o32(msb,low)={b['state']['o32']} o64={b['state']['o64']} length={b['state']['len']}")
+        for x in r["bad"]:
+            print(f"  failed clause: {x['clause']} {x.get('exc', '')}")
+        rc = 1 if r["nbad"] else 0
     pool.close()
     print(f"replay verdict: {'VIOLATION reproduced' if rc else 'no violation on the current tree'}")
     shutil.rmtree(ctx.scratch, ignore_errors=True)
